@@ -50,7 +50,16 @@ func (c *Calcium) doReallocOnNode(ctx context.Context, node *types.Node, workloa
 			logger.Debugf(ctx, "realloc workload %+v, resource args %+v, engine args %+v", workload.ID, litter.Sdump(resources), litter.Sdump(engineParams))
 			workload.EngineParams = engineParams
 			workload.Resources = resources
-			return c.store.UpdateWorkload(ctx, workload)
+			if err = c.store.UpdateWorkload(ctx, workload); err != nil {
+				// the transaction does not roll back a failed condition, but the node resource
+				// has been changed already: give the delta back here
+				rollbackCtx, cancel := context.WithTimeout(utils.NewInheritCtx(ctx), c.config.GlobalTimeout)
+				defer cancel()
+				if e := c.rmgr.RollbackRealloc(rollbackCtx, workload.Nodename, deltaResources); e != nil {
+					logger.Errorf(ctx, e, "failed to rollback workload %+v, resource args %+v", workload.ID, litter.Sdump(resources))
+				}
+			}
+			return err
 		},
 		// then: update virtualization
 		func(ctx context.Context) error {
